@@ -144,9 +144,12 @@ Definition lex_one (s : str) : lexres :=
         else LBad                                     (* "invalid token" *)
     | None =>
     (* 11. '.' *)
-    match s with
-    | 39 :: ch :: 39 :: rest => if negb (ch =? 10) then LTok (TNum ch) rest else LBad
-    | _ =>
+    match (match r with
+           | ch :: q2 :: rest => if (c =? 39) && (q2 =? 39) then Some (ch, rest) else None
+           | _ => None
+           end) with
+    | Some (ch, rest) => if negb (ch =? 10) then LTok (TNum ch) rest else LBad
+    | None =>
     (* 12. [><]  -> "invalid token" *)
     if (c =? 62) || (c =? 60) then LBad else
     (* no alternative matches here: whitespace is skipped, anything else is an error (fix D3) *)
